@@ -172,5 +172,10 @@ CLAIMS['C20'] = {
   'note': _TB + 'The function body (ExpressionParser.parse) is a stand-in that overwrites the parameters in place and returns or raises; string parameters are not covered.',
 }
 
+CLAIMS['C09'] = {
+  'text': 'Proof against the reference definitions for symbolic string contents and symbolic numeric arguments over the whole Integer range: LEFT$, RIGHT$, MID$, INSTR (least matching position), STRING$, SPACE$, LEN, ASC, CHR$, concatenation (String too long iff > 255), = and > (byte-wise lexicographic, prefix first), LSET/RSET and the MID$ statement (including the overlapping source = target case), with Illegal function call exactly outside the documented ranges.',
+  'note': _TB + 'String lengths are case parameters on stated grids (including 0, 1, 254, 255; shorter grids for the quadratic functions); string space uses a DataSegment stand-in; the statement wrappers DataSegment.mid_/lset_/rset_ are not covered.',
+}
+
 NOT_APPLICABLE = {
 }
